@@ -49,6 +49,19 @@ class NPfold:
     float64, float32, int32 = np.float64, np.float32, np.int32
 
     @staticmethod
+    def any(a):
+        # truthiness of symbolic entries forks through the path explorer
+        return SBool(z3.Or([wrap(v).e != 0 for v in np.asarray(a, dtype=object).ravel()] or [z3.BoolVal(False)]))
+
+    @staticmethod
+    def all(a):
+        return SBool(z3.And([wrap(v).e != 0 for v in np.asarray(a, dtype=object).ravel()] or [z3.BoolVal(True)]))
+
+    @staticmethod
+    def abs(a):
+        return np.abs(a)
+
+    @staticmethod
     def roll(p, k, axis=0):
         return Prof(z3.simplify(p.rot + as_int_term(k)))
 
